@@ -1,12 +1,130 @@
 import Driver.Tok
-/- line-protocol handlers of this area; see docs/AGENT_GUIDE.md -/
+import BpModel.EnumM
+/- line-protocol handlers of the enum area (C20); see docs/AGENT_GUIDE.md and docs/C20-notes.md
+
+   ENUMDEF <eid> { <name> <number> }*         define (or redefine) an enum class         -> ok <len>
+   ENUMOP  <eid> <op> <args>                  one operation of a lock-step run (state kept per eid)
+       call v | getitem n | getattr n | try v | fromstr n | iter | rev | len | names
+       contains v | containsint v
+       setcls n v | delcls n | memset n v | setmem v <name|value|other> x | delmem v <name|value|other>
+       copy v | deepcopy v | pickle v
+       tojson v | fromjson S n | fromjson I v
+   ENUMWIRE <n>                               enum scalar through the wire model: bytes, then decoded number
+
+   replies:  member  `<name|~> <number> <c|n>`            (c = it is the canonical object of its number)
+             copy    `<name|~> <number> <c|n> <same|diff>` (same = the object that was copied)
+             list    `L <k> { <name|~> <number> <c|n> }*`
+             `T` / `F`, a number, `S <name>` / `I <number>` / `NULL`, `ERR <kind>` -/
 namespace Drv
+open Bp Bp.EnumM
 
 structure EnumDSt where
-  dummy : Unit := ()
+  enums : List (String × Cls String) := []
 
-def handleEnumD (st : EnumDSt) (_toks : List String) : Option (EnumDSt × String) :=
-  let _ := st
-  none
+def showName : Option String → String
+  | some n => n
+  | none => "~"
+
+def showMember (c : Cls String) (m : Member String) : String :=
+  s!"{showName m.name} {m.number} {if isCanonical c m then "c" else "n"}"
+
+def showOut (c : Cls String) : Out String → String
+  | .member m => showMember c m
+  | .copied m src => showMember c m ++ (if m.same src then " same" else " diff")
+  | .members ms => s!"L {ms.length}" ++ String.join (ms.map fun m => " " ++ showMember c m)
+  | .nat n => toString n
+  | .bool b => if b then "T" else "F"
+  | .err e => "ERR " ++ errName e
+
+def parseDecl : List String → List (String × Int) → Option (Decl String)
+  | [], acc => some acc.reverse
+  | n :: v :: rest, acc =>
+    match parseInt v with
+    | some v => parseDecl rest ((n, v) :: acc)
+    | none => none
+  | _, _ => none
+
+def parseAttr : String → Option Attr
+  | "name" => some .name
+  | "value" => some .value
+  | "other" => some .other
+  | _ => none
+
+def parseOp : List String → Option (Op String)
+  | ["call", v] => (parseInt v).map .call
+  | ["getitem", n] => some (.getitem n)
+  | ["getattr", n] => some (.getattr n)
+  | ["try", v] => (parseInt v).map .tryValue
+  | ["fromstr", n] => some (.fromString n)
+  | ["iter"] => some .iter
+  | ["rev"] => some .reversed
+  | ["len"] => some .len
+  | ["contains", v] => (parseInt v).map .contains
+  | ["containsint", v] => (parseInt v).map .containsInt
+  | ["setcls", n, v] => (parseInt v).map (.setattrCls n)
+  | ["delcls", n] => some (.delattrCls n)
+  | ["memset", n, v] => (parseInt v).map (.membersSet n)
+  | ["setmem", v, a, x] => do
+    let v ← parseInt v
+    let a ← parseAttr a
+    let x ← parseInt x
+    some (.setattrMem v a x)
+  | ["delmem", v, a] => do
+    let v ← parseInt v
+    let a ← parseAttr a
+    some (.delattrMem v a)
+  | ["copy", v] => (parseInt v).map .copy
+  | ["deepcopy", v] => (parseInt v).map .deepcopy
+  | ["pickle", v] => (parseInt v).map .pickle
+  | _ => none
+
+def showJ : Option (JEnum String) → String
+  | some (.name n) => "S " ++ n
+  | some (.num v) => s!"I {v}"
+  | none => "NULL"
+
+def EnumDSt.put (st : EnumDSt) (eid : String) (c : Cls String) : EnumDSt :=
+  { st with enums := (eid, c) :: st.enums.filter (·.1 != eid) }
+
+def handleEnumD (st : EnumDSt) : List String → Option (EnumDSt × String)
+  | "ENUMDEF" :: eid :: rest =>
+    match parseDecl rest [] with
+    | some d =>
+      if NamesNodup d then
+        let c := mk d
+        some (st.put eid c, s!"ok {len c}")
+      else some (st, "bad-enum duplicate-name")
+    | none => some (st, "bad-enum")
+  | ["ENUMOP", eid, "names"] => do
+    let c ← st.enums.lookup eid
+    some (st, s!"L {(memberNames c).length}" ++ String.join ((memberNames c).map (" " ++ ·)))
+  | ["ENUMOP", eid, "tojson", v] => do
+    let c ← st.enums.lookup eid
+    let v ← parseInt v
+    some (st, showJ (dumpEnum c v))
+  | ["ENUMOP", eid, "fromjson", k, x] => do
+    let c ← st.enums.lookup eid
+    let j ← (if k == "S" then some (JEnum.name x) else if k == "I" then (parseInt x).map JEnum.num else none)
+    let (c', r) := parseEnum c j
+    some (st.put eid c', match r with
+      | .ok m => showMember c' m
+      | .error e => "ERR " ++ errName e)
+  | "ENUMOP" :: eid :: rest => do
+    let c ← st.enums.lookup eid
+    let op ← parseOp rest
+    let (c', o) := step c op
+    some (st.put eid c', showOut c' o)
+  | ["ENUMWIRE", n] => do
+    let n ← parseInt n
+    match prepPlain .enum (.int n) with
+    | .error e => some (st, "ERR " ++ errName e)
+    | .ok bs =>
+      match loadVarint bs with
+      | .error e => some (st, toHex bs ++ " ERR " ++ errName e)
+      | .ok (k, used) =>
+        match postVarint .enum k with
+        | .int n' => some (st, s!"{toHex bs} {used} {n'}")
+        | _ => some (st, toHex bs ++ " ERR type")
+  | _ => none
 
 end Drv
